@@ -1,7 +1,7 @@
 (* C08 — graceful leave is final; a member's name and address cannot be hijacked. *)
 From Coq Require Import List NArith ZArith Bool.
 Import ListNotations.
-From VF Require Import Base Core Core_lemmas Core_inv Core_props.
+From VF Require Import Base Core Core_lemmas Core_inv Core_props Exchange Heal_proofs Leave_proofs.
 
 (* --- peers: a departure (dead message signed by the node itself) is recorded as Left --- *)
 Theorem C08_peer_records_left : forall c s inc name r,
@@ -102,3 +102,67 @@ Example C08_leave_race_fixed :
   let s := fst (run c (boot c 1) [OLeaveBegin; OSuspect 1 0 1; OLeaveCommit 1]) in
   exists r, lk s 0 = Some r /\ rst r = Left /\ alookup (kname 0) (bq s) = Some (BDead 1 0 0).
 Proof. vm_compute. eexists. repeat split. Qed.
+
+(* ---------- whole histories ---------- *)
+(* Leave on a running node that lists itself: flag set, own record Left at the incarnation it had, no
+   suspicion timer about itself *)
+Theorem C08_leave_reaches_left : forall c, fixed c = true -> forall s r w,
+  Inv c s -> leaving s = false -> lk s (self c) = Some r -> rst r = Alive ->
+  exists r', Gone c (fst (step c s (OLeave w))) r' /\ rinc r' = rinc r.
+Proof. exact leave_is_gone. Qed.
+Print Assumptions C08_leave_reaches_left.
+
+(* ... and from then on NO operation and no sequence of operations — alive, suspect or dead claims about
+   itself or anybody else by gossip or push/pull, at any incarnation, from any address; timers; reaping
+   (the own record is kept); UpdateNode, a second Leave — changes its own record or clears the flag: the
+   node never lists itself again, whatever arrives and in whatever order *)
+Theorem C08_left_is_final : forall c, fixed c = true -> forall ops s r,
+  Gone c s r -> Gone c (fst (run c s ops)) r /\ listed (fst (run c s ops)) (self c) = None.
+Proof. exact gone_run. Qed.
+Print Assumptions C08_left_is_final.
+
+Theorem C08_left_is_final_step : forall c, fixed c = true -> forall s r o, Gone c s r -> Gone c (fst (step c s o)) r.
+Proof. exact gone_step. Qed.
+Print Assumptions C08_left_is_final_step.
+
+(* the leaver's own queued messages: in every state of every history from boot, every alive message about
+   the node itself that sits in its broadcast queue carries at most the incarnation of its own record.
+   Once that record is the departure (Left at i) every such message is therefore no newer than the
+   departure, and by C08_no_resurrection_alive a peer that recorded the departure ignores it — in whatever
+   order the refutation's alive message (queued under the address key, which the departure does not
+   supersede) and the departure are transmitted *)
+Theorem C08_own_alive_not_newer : forall c, fixed c = true -> forall meta ops,
+  is_allowed c (self_addr c) = true -> vsn_bad (self_vsn c) = false -> run_ok c (boot c meta) ops ->
+  forall k i a m v, In (k, BAlive i (self c) a m v) (bq (fst (run c (boot c meta) ops))) ->
+  exists r, lk (fst (run c (boot c meta) ops)) (self c) = Some r /\ (i <= rinc r)%N.
+Proof.
+  intros c Hf meta ops Al Vb HR. apply (Q_run c Hf ops (boot c meta)); [apply boot_FInv; assumption | exact HR | apply Q_boot; assumption].
+Qed.
+Print Assumptions C08_own_alive_not_newer.
+
+Theorem C08_own_alive_step : forall c, fixed c = true -> forall s o, FInv c s -> op_ok c s o -> QInv c s -> QInv c (fst (step c s o)).
+Proof. exact Q_step. Qed.
+Print Assumptions C08_own_alive_step.
+
+(* non-vacuity: the node is accused (refutes: incarnation 2, alive message queued under its address key),
+   updates its metadata (incarnation 3), leaves (Left at 3, departure queued under its name), and is then
+   hit by its own old alive message, an accusation, a death claim, a newer alive about itself from another
+   address, a reap after a long time and a second Leave: nothing changes; both queued alive messages are
+   below the departure *)
+Example C08_history_nonvacuous :
+  let c := cfg_ex in
+  let ops1 := [OSuspect 1 0 7; OUpdate 5 0; OLeave 0] in
+  let ops2 := [OAlive 3 0 0 5 [1;5;2;0;0;0]%N false; OSuspect 9 0 7; ODead 9 0 7; OAlive 9 0 4 6 [1;5;2;0;0;0]%N false;
+               OAdvance 100000000000; OReap; OLeave 0; OUpdate 8 0] in
+  run_ok c (boot c 1) (ops1 ++ ops2) /\
+  (exists r, Gone c (fst (run c (boot c 1) ops1)) r /\ rinc r = 3%N) /\
+  (let s := fst (run c (boot c 1) (ops1 ++ ops2)) in
+   listed s 0 = None /\
+   map (fun e => match snd e with BAlive i n _ _ _ => (1%N, i, n) | BSuspect i n _ => (2%N, i, n) | BDead i n _ => (3%N, i, n) end) (bq s)
+     = [(3, 3, 0); (1, 2, 0)]%N).
+Proof.
+  cbv zeta. split; [|split].
+  - vm_compute. repeat split; try reflexivity; try discriminate; intros; try reflexivity; try discriminate.
+  - eexists. unfold Gone, no_live. vm_compute. repeat split; reflexivity.
+  - vm_compute. split; reflexivity.
+Qed.
